@@ -19,13 +19,41 @@ type session struct {
 	comm   *simClient
 	client *ClientDnsConnection
 	user   *userConnection
+	opts   sessionOptions
+}
+
+// sessionOptions is what a session negotiates after its version handshake, the way the client's own handshake does it
+// (codec switches with SetEncodingUpstream / SetEncodingDownstream, then the downstream fragment size). The zero value
+// keeps Base32 both ways and asks for 200-byte fragments.
+type sessionOptions struct {
+	Up, Down enc.Encoder
+	Frag     uint32
+}
+
+func (o sessionOptions) String() string {
+	n := func(e enc.Encoder) string {
+		if e == nil {
+			return "Base32"
+		}
+		return e.Name()
+	}
+	f := o.Frag
+	if f == 0 {
+		f = 200
+	}
+	return fmt.Sprintf("up=%s down=%s frag=%d", n(o.Up), n(o.Down), f)
 }
 
 func openSession(ss *simServer, srv *ServerDnsListener, addr net.Addr) (*session, error) {
+	return openSessionWith(ss, srv, addr, sessionOptions{})
+}
+
+func openSessionWith(ss *simServer, srv *ServerDnsListener, addr net.Addr, opts sessionOptions) (*session, error) {
 	s, err := openSessionNoAccept(ss, srv, addr)
 	if err != nil {
 		return nil, err
 	}
+	s.opts = opts
 	c, err := srv.Accept()
 	if err != nil {
 		return nil, err
@@ -53,8 +81,26 @@ func openSessionNoAccept(ss *simServer, srv *ServerDnsListener, addr net.Addr) (
 }
 
 func (s *session) finishSetup() error {
+	if s.opts.Up != nil {
+		s.client.Serializer.Upstream.Encoder = s.opts.Up
+		_ = s.client.SetEncodingUpstream()
+		if s.client.Serializer.Upstream.Encoder != s.opts.Up {
+			return fmt.Errorf("the server did not accept the switch of the upstream codec to %s", s.opts.Up.Name())
+		}
+	}
+	if s.opts.Down != nil {
+		s.client.Serializer.Downstream.Encoder = s.opts.Down
+		_ = s.client.SetEncodingDownstream()
+		if s.client.Serializer.Downstream.Encoder != s.opts.Down {
+			return fmt.Errorf("the server did not accept the switch of the downstream codec to %s", s.opts.Down.Name())
+		}
+	}
 	s.client.Serializer.Upstream.FragmentSize = 100
-	return s.client.SwitchFragmentSize(200)
+	frag := s.opts.Frag
+	if frag == 0 {
+		frag = 200
+	}
+	return s.client.SwitchFragmentSize(frag)
 }
 
 // transfer moves n bytes each way through the established session and checks them.
